@@ -43,7 +43,7 @@ def manual_instances(hyps, goal, sks):
     Needed because bound variables that occur only under a lambda (row sums, traces) give the solver no
     E-matching pattern; every instance is a logical consequence of its hypothesis, so this is sound."""
     cands = list(sks) + [c for c in _int_consts(goal) if not any(c.eq(s_) for s_ in sks)]
-    cands = [c for c in cands if c.sort() == z3.IntSort()][:6]
+    cands = [c for c in cands if c.sort() == z3.IntSort()][:8]
     out = []
     if not cands:
         return out
@@ -58,6 +58,15 @@ def manual_instances(hyps, goal, sks):
             # cell-wise facts about the same index tuple as the goal: instantiate position by position
             if n == len(sks):
                 out.append(z3.substitute_vars(h.body(), *reversed(list(sks))))
+            elif n == len(sks) + 1 and len(sks) >= 1:
+                # one leading index more than the goal (a time / power / component index): try the integer constants
+                # of the goal and their neighbours for it
+                lead = []
+                for c in cands:
+                    if not any(c.eq(s_) for s_ in sks):
+                        lead.extend([c, c - 1, c + 1])
+                for c in lead[:24]:
+                    out.append(z3.substitute_vars(h.body(), *reversed([c] + list(sks))))
             continue
         for tup in itertools.product(cands, repeat=n):
             out.append(z3.substitute_vars(h.body(), *reversed(tup)))
@@ -95,7 +104,7 @@ def _expand(t, cache, positive, span):
         if t.is_lambda():
             return t
         n = t.num_vars()
-        if any(t.var_sort(i) != z3.IntSort() for i in range(n)) or n > 4:
+        if any(t.var_sort(i) != z3.IntSort() for i in range(n)) or n > 5:
             return z3.BoolVal(True)
         import itertools
         insts = []
@@ -266,6 +275,51 @@ def sum_succ_instances(terms):
     return out
 
 
+def _ground_sums(terms):
+    out, seen, stack = [], set(), list(terms)
+    while stack:
+        t = stack.pop()
+        if t.get_id() in seen or z3.is_quantifier(t) or not z3.is_app(t):
+            continue
+        seen.add(t.get_id())
+        if t.decl().name() == "u_sum" and t.num_args() == 3 and z3.is_quantifier(t.arg(0)):
+            out.append(t)
+        stack.extend(t.children())
+    return out
+
+
+def sum_ext_instances(terms, depth=2, limit=60):
+    """ground instances of the (Lean-proved) lemma sum_ext for pairs of sums with the same bounds, with the summands
+    beta-reduced at a fresh index; repeated for the inner sums that become visible (nested sums).  The solver's
+    E-matching does not see sums that only appear after a beta reduction, hence this helper."""
+    from .values import select
+    out, keep = [], []
+    level = _ground_sums(terms)
+    done = set()
+    for _ in range(depth):
+        nxt = []
+        for i in range(len(level)):
+            for j in range(i + 1, len(level)):
+                a, b = level[i], level[j]
+                if a.get_id() == b.get_id() or not (a.arg(1).eq(b.arg(1)) and a.arg(2).eq(b.arg(2))):
+                    continue
+                key = (min(a.get_id(), b.get_id()), max(a.get_id(), b.get_id()))
+                if key in done:
+                    continue
+                done.add(key)
+                sk = z3.FreshConst(z3.IntSort(), "ext")
+                fa, fb = select(a.arg(0), [sk]), select(b.arg(0), [sk])
+                keep.extend([fa, fb])
+                out.append(z3.Or(z3.And(a.arg(1) <= sk, sk < a.arg(2), fa != fb), a == b))
+                nxt.extend(_ground_sums([fa, fb]))
+                if len(out) >= limit:
+                    return out
+        level = nxt
+        if not level:
+            break
+    return out
+
+
 def _solve(idx):
     ob, extra_axioms, leaves = _OBS[idx]
     t0 = time.time()
@@ -283,6 +337,9 @@ def _solve(idx):
         for a in sum_succ_instances([goal]):
             s.add(a)
     insts = manual_instances(ob.hyps, goal, sks)
+    if sum_axioms and _mentions_decl([goal], "u_sum"):
+        for a in sum_ext_instances([goal] + list(insts)):
+            s.add(a)
     # stage 0: quantifier-free hypotheses and ground instances only (fewer hypotheses: a proof here is a proof);
     # quantified hypotheses that are irrelevant to the goal otherwise make the solver diverge on non-linear goals
     if not _has_quantifier(goal):
